@@ -1,7 +1,10 @@
 CHECK = dict(
     level='fault_enumeration',
     parts=[dict(name='c14', src=['harness/c14_wavdecode.c'], workers=16,
-                deadline=dict(quick=120, thorough=900))],
+                deadline=dict(quick=120, thorough=900)),
+           dict(name='c14asan', src=['harness/c14_helpers.c'], workers=16,
+                cflags=['-fsanitize=address', '-fsanitize-recover=address', '-fno-omit-frame-pointer', '-O1'],
+                deadline=dict(quick=120, thorough=300))],
     rule='bounded-exhaustive enumeration of malformed inputs to the real rf_wavheader_decode: (S) every byte string of '
          'length 0..L; (H) five valid headers (PCM16, PCM32, float+fact, extensible with the 22-byte extension, 20-byte '
          'fmt chunk without it) with every choice of <= D deviating fields, each deviating field taking every value of a '
@@ -12,10 +15,14 @@ CHECK = dict(
          'parser, then validate/get_format/tostring run on the structure left behind. evaluations = decode calls with '
          'the end-guarded placement; distinct_nontrivial = distinct (template, input bytes, declared length) triples, '
          'counted with a hash set over the inputs that show the last deviation (other prefixes are inputs of a case with '
-         'fewer deviations); distinct_observations = distinct (decoded structure, accepted?) pairs handed to the helpers',
-    bounds=dict(quick='L = 2 (65 793 strings); D = 2 deviating fields out of 13..20, all 5 templates, every truncation length',
+         'fewer deviations); distinct_observations = distinct (decoded structure, accepted?) pairs handed to the helpers. '
+         'Second part (c14asan, AddressSanitizer build of the librfn sources): FULL PRODUCT of an extreme-value menu per numeric '
+         'field (format tag 6, channels 9, sample rate 9, block align 5, bits 5, data size 8 values, sub-format 4) over three header '
+         'shapes (plain, fmt+fact, extensible), each decoded from an exactly-sized heap buffer, then validate/get_format/tostring on '
+         'the result; any ASan report or signal is a violation',
+    bounds=dict(quick='L = 2 (65 793 strings); D = 2 deviating fields out of 13..20, all 5 templates, every truncation length; helpers product family: all 388 800 field combinations',
                 thorough='L = 3 (16.8 million strings); D = 3 deviating fields, all 5 templates, every truncation length, '
-                         'both guard placements at every length'),
+                         'both guard placements at every length; helpers product family as in quick'),
     assumptions=['declared length == real buffer length (the statement\'s "reads only the supplied bytes")',
                  'x86-64/LP64: pointer arithmetic far past the buffer (rf_pack cursor += 0xffffffed) does not fault by itself; '
                  'it is undefined behaviour in C but the property does not speak about it',
@@ -32,7 +39,7 @@ CHECK.update(
     level_text='Every header within <= 2 (thorough 3) field deviations of five valid templates over adversarial value menus, at '
                'every truncation length, plus all byte strings up to 2 (3) bytes, decoded by the real code in exactly-sized '
                'guard-paged buffers and compared with a 64-bit reference parser; helpers run on every distinct resulting structure.',
-    level_note='Bounded: inputs further than 3 field deviations from a valid header, menu values not listed and headers longer '
+    level_note='Bounded: inputs further than 3 field deviations from a valid header (except the all-numeric-fields product family of the ASan part), menu values not listed and headers longer '
                'than 70 bytes are not covered. Trusted: the reference parser and the guard-page mechanism.',
     design_ref='DESIGN.md section 4, C14',
 )
